@@ -46,6 +46,68 @@ type c13Case struct {
 	After   [][2]string `json:"after,omitempty"`   // body fields with larger tags
 	Mode    int         `json:"mode"`              // 0 no dictionary, 1 defining dictionary, 2 transport + defining dictionary
 	Rewrite bool        `json:"rewrite,omitempty"` // every group is set twice (first with one entry less), as an application building it up would
+	Shared  bool        `json:"shared,omitempty"`  // one template object tree for writing and reading: the nested group objects inside the template are the ones the application fills (first entry of each level)
+}
+
+// tnode: a nested group object that lives inside a template, with its own template and nested objects.
+type tnode struct {
+	rg   *quickfix.RepeatingGroup
+	kids map[int]*tnode
+}
+
+// sharedTemplate builds one template object tree and returns handles to the nested group objects in it.
+func (t gTmpl) sharedTemplate() (quickfix.GroupTemplate, map[int]*tnode) {
+	var out quickfix.GroupTemplate
+	kids := map[int]*tnode{}
+	for _, m := range t.Members {
+		if m.IsGroup {
+			sub, subKids := m.sharedTemplate()
+			rg := quickfix.NewRepeatingGroup(quickfix.Tag(m.Tag), sub)
+			kids[m.Tag] = &tnode{rg: rg, kids: subKids}
+			out = append(out, rg)
+		} else {
+			out = append(out, quickfix.GroupElement(quickfix.Tag(m.Tag)))
+		}
+	}
+	return out, kids
+}
+
+// fillShared adds the entries to g; the nested groups of the first entry are built in the template's own objects.
+func (t gTmpl) fillShared(g *quickfix.RepeatingGroup, kids map[int]*tnode, entries []gEntry) {
+	for i, e := range entries {
+		ge := g.Add()
+		for _, m := range t.Members {
+			if m.IsGroup {
+				if sub, ok := e.Subs[m.Tag]; ok {
+					if i == 0 {
+						k := kids[m.Tag]
+						m.fillShared(k.rg, k.kids, sub)
+						ge.SetGroup(k.rg)
+					} else {
+						ge.SetGroup(m.write(sub, false))
+					}
+				}
+			} else if v, ok := e.Vals[m.Tag]; ok {
+				ge.SetString(quickfix.Tag(m.Tag), v)
+			}
+		}
+	}
+}
+
+// restyle prefixes every value (values beginning with or containing the key/value separator).
+func restyle(entries []gEntry, prefix string) []gEntry {
+	var out []gEntry
+	for _, e := range entries {
+		n := gEntry{Vals: map[int]string{}, Subs: map[int][]gEntry{}}
+		for k, v := range e.Vals {
+			n.Vals[k] = prefix + v
+		}
+		for k, v := range e.Subs {
+			n.Subs[k] = restyle(v, prefix)
+		}
+		out = append(out, n)
+	}
+	return out
 }
 
 func (t gTmpl) template() quickfix.GroupTemplate {
@@ -171,7 +233,16 @@ func c13EvalInner(cs c13Case) (string, string) {
 	if cs.Rewrite && len(cs.Entries) > 0 {
 		msg.Body.SetGroup(cs.Group.write(cs.Entries[:len(cs.Entries)-1], false))
 	}
-	msg.Body.SetGroup(cs.Group.write(cs.Entries, cs.Rewrite))
+	var sharedTpl quickfix.GroupTemplate
+	if cs.Shared {
+		var kids map[int]*tnode
+		sharedTpl, kids = cs.Group.sharedTemplate()
+		g := quickfix.NewRepeatingGroup(quickfix.Tag(cs.Group.Tag), sharedTpl)
+		cs.Group.fillShared(g, kids, cs.Entries)
+		msg.Body.SetGroup(g)
+	} else {
+		msg.Body.SetGroup(cs.Group.write(cs.Entries, cs.Rewrite))
+	}
 	wire := []byte(msg.String())
 	if sm, err := fixscan.Scan(wire); err != nil {
 		return "C13/W-unscannable", err.Error()
@@ -193,6 +264,10 @@ func c13EvalInner(cs c13Case) (string, string) {
 		return "C13/P-parse-error", fmt.Sprintf("%v | %s", err, ctx)
 	}
 	rg := quickfix.NewRepeatingGroup(quickfix.Tag(cs.Group.Tag), cs.Group.template())
+	if cs.Shared {
+		rg = quickfix.NewRepeatingGroup(quickfix.Tag(cs.Group.Tag), sharedTpl)
+		ctx += " (one template object tree used for writing and reading)"
+	}
 	if err := parsed.Body.GetGroup(rg); err != nil {
 		return "C13/R-group-unreadable", fmt.Sprintf("%v | %s", err, ctx)
 	}
@@ -288,7 +363,7 @@ func runC13(c *core.Ctx) {
 		c.EngineError(err.Error())
 		return
 	}
-	c.SetRule("(a) generated templates up to depth 3 with <=3 members per level, optional members present/absent, 0-2 entries per level, the group first/middle/last in the body, followed by a parent-group member / a body field / the trailer, parsed without dictionary; (b) every group of every message of every shipped dictionary (independent XML walk): 1 and 2 entries, nested groups with 0 and 1 entries, optional members absent/present, with the nearest lower and higher body fields of that message, parsed without dictionary, with the defining dictionary, and (FIX 5.x) with transport + defining dictionary; written through the API, read back with the same template")
+	c.SetRule("(a) generated templates up to depth 3 with <=3 members per level, optional members present/absent, 0-2 entries per level, the group first/middle/last in the body, followed by a parent-group member / a body field / the trailer, parsed without dictionary; (b) every group of every message of every shipped dictionary (independent XML walk): 1 and 2 entries, nested groups with 0 and 1 entries, optional members absent/present, with the nearest lower and higher body fields of that message, parsed without dictionary, with the defining dictionary, and (FIX 5.x) with transport + defining dictionary; written through the API, read back with the same template — also with one template object tree whose nested group objects the application itself filled (first entry of each level), and with member values that begin with or contain '='")
 	c.Assume("values are opaque strings (no validation involved)", "the first member of a group is its delimiter and always present", "group members declared twice in one group are used once")
 	jobs := make(chan c13Case, 4096)
 	var evals int64
@@ -343,6 +418,14 @@ func runC13(c *core.Ctx) {
 						jobs <- cs
 						cs.Rewrite = true
 						jobs <- cs
+						cs.Rewrite = false
+						cs.Shared = true
+						jobs <- cs
+						cs.Shared = false
+						for _, pre := range []string{"=", "x="} {
+							cs.Entries = restyle(fill(sh, n, nn, opt, ""), pre)
+							jobs <- cs
+						}
 					}
 				}
 			}
@@ -388,6 +471,14 @@ func runC13(c *core.Ctx) {
 						for _, opt := range []bool{false, true} {
 							for _, mode := range modes {
 								jobs <- c13Case{Dict: dn, MsgType: m.MsgType, Begin: begin[dn], Group: t, Entries: fill(t, n, nn, opt, ""), Before: before, After: after, Mode: mode, Rewrite: n == 2 && opt}
+								if nn == 1 {
+									jobs <- c13Case{Dict: dn, MsgType: m.MsgType, Begin: begin[dn], Group: t, Entries: fill(t, n, nn, opt, ""), Before: before, After: after, Mode: mode, Shared: true}
+								}
+								if n == 1 && nn == 1 && opt {
+									for _, pre := range []string{"=", "x="} {
+										jobs <- c13Case{Dict: dn, MsgType: m.MsgType, Begin: begin[dn], Group: t, Entries: restyle(fill(t, n, nn, opt, ""), pre), Before: before, After: after, Mode: mode}
+									}
+								}
 							}
 						}
 					}
